@@ -486,6 +486,33 @@ pub fn all_or_nothing(u: &Value) -> Vec<Map<String, Value>> {
     vec![gen::select_all(u), Map::new()]
 }
 
+/// Every member / element count from 0 to 40 and around 64, 128, 256 (objects and arrays, at the root level
+/// and nested): rounding, padding and bucket boundaries.
+pub fn count_sweep_trees() -> Vec<Value> {
+    let mut counts: Vec<usize> = (0..=40).collect();
+    counts.extend([47, 48, 49, 63, 64, 65, 127, 128, 129, 255, 256, 257]);
+    let mut out = vec![];
+    for n in counts {
+        let obj = Value::Object((0..n).map(|i| (format!("m{i}"), json!(i))).collect());
+        let arr = Value::Array((0..n).map(|i| json!(i)).collect());
+        out.push(json!({"iss": gen::ISS, "exp": gen::EXP, "a": obj.clone()}));
+        out.push(json!({"iss": gen::ISS, "exp": gen::EXP, "a": arr}));
+        // n members directly at the root
+        let mut root = Map::new();
+        root.insert("iss".into(), json!(gen::ISS));
+        for i in 0..n {
+            root.insert(format!("m{i}"), json!(i));
+        }
+        root.insert("exp".into(), json!(gen::EXP));
+        out.push(Value::Object(root));
+        out.push(json!({"iss": gen::ISS, "exp": gen::EXP, "a": [obj]}));
+    }
+    out
+}
+pub fn count_sweep_strategies(_u: &Value) -> Vec<Strat> {
+    vec![Strat::NoSd, Strat::Top, Strat::All]
+}
+
 /// Single nested path of depth k; bit i of `pattern` says whether level i is an array (1) or object (0).
 pub fn chain(k: usize, pattern: u64) -> Value {
     let mut v = json!(7);
